@@ -1,0 +1,36 @@
+//go:build verif
+
+package wallet
+
+// Verification hooks (build tag "verif" only): the BIP-39 codec is unexported
+// and NewSeedPhrase draws its own entropy, so the property harness in /verif
+// reaches the codec through these wrappers. Nothing here is compiled into a
+// normal build.
+
+// VerifEncodePhrase returns encodeBIP39Phrase(entropy).
+func VerifEncodePhrase(entropy [16]byte) string {
+	return encodeBIP39Phrase(&entropy)
+}
+
+// VerifDecodePhrase returns the entropy decodeBIP39Phrase writes and its
+// error. The entropy is returned even when an error is reported.
+func VerifDecodePhrase(phrase string) (entropy [16]byte, err error) {
+	err = decodeBIP39Phrase(&entropy, phrase)
+	return
+}
+
+// VerifChecksum returns bip39checksum(entropy).
+func VerifChecksum(entropy [16]byte) uint64 {
+	return bip39checksum(&entropy)
+}
+
+// VerifWordList returns a copy of the BIP-39 word table.
+func VerifWordList() []string {
+	return append([]string(nil), bip39EnglishWordList...)
+}
+
+// VerifWordIndex returns wordMap[word] and whether the word is present.
+func VerifWordIndex(word string) (uint64, bool) {
+	i, ok := wordMap[word]
+	return i, ok
+}
